@@ -58,10 +58,6 @@ def dur_as(c):
     t = c.ret_ty()
     lo, hi = int_range(t)
     n = c.it.fresh_num(c.st, lo, hi, "ms")
-    c.st.cells.setdefault("ghost:defs", Trace())
-    d = c.st.cells["ghost:defs"]
-    if isinstance(d, Trace):
-        c.st.cells["ghost:defs"] = d.add((c.name.rsplit("::", 1)[1], n.e, val(c, c.args[0])))
     return [(c.st, n)]
 
 
@@ -682,3 +678,45 @@ def listed_next(c):
     c.it.store(c.st, recv.cell, recv.path, rest)
     event(c.st, "next", idx[0])
     return [(c.st, Enum(OPTION, {1: Struct({0: v.items.f[idx[0]]})}))]
+
+
+# ------------------------------------------------------------------------------------------- min / max of uninterpreted values
+
+@first(r"^<std::time::(Instant|Duration) as std::cmp::Ord>::(min|max)$|^std::cmp::(min|max)::<std::time::(Instant|Duration)>$")
+def term_min_max(c):
+    """min / max of two instants: one of them, with the comparison that selects it recorded as a decision of the path"""
+    a, b = val(c, c.args[0]), val(c, c.args[1])
+    is_min = re.search(r"(min)(::<.*>)?$", c.name) is not None and "max" not in c.name.rsplit("::", 2)[-1]
+    if a == b:
+        return [(c.st, a)]
+    out = []
+    for truth in (True, False):
+        st = c.st.copy()
+        cnd = Cond("ucmp", ("le", a, b))
+        if c.it.assume(st, cnd, truth):
+            # a <= b: min is a, max is b (ties: min returns the first, max the second - the same value either way)
+            out.append((st, (a if truth else b) if is_min else (b if truth else a)))
+    return out
+
+
+# ------------------------------------------------------------------------------------------- Option::as_ref / as_mut / as_deref
+
+@first(r"^std::option::Option::<.*>::(as_ref|as_mut)$")
+def option_as_ref(c):
+    """`opt.as_ref()`: None, or Some(reference into the option) - decided per variant of the option it borrows from"""
+    r = c.args[0]
+    if not isinstance(r, Ref):
+        return c.it.models.lookup_after(c.name, option_as_ref)(c)
+    v = c.it.load(c.st, r.cell, r.path)
+    if not (isinstance(v, Enum) and v.adt == OPTION):
+        return c.it.models.lookup_after(c.name, option_as_ref)(c)
+    out = []
+    for i in sorted(v.v):
+        st = c.st if len(v.v) == 1 else c.st.copy()
+        if len(v.v) > 1 and not c.it.refine_discr(st, DiscrOf(r.cell, r.path, OPTION), i, True):
+            continue
+        if i == 0:
+            out.append((st, Enum(OPTION, {0: Struct()})))
+        else:
+            out.append((st, Enum(OPTION, {1: Struct({0: Ref(r.cell, tuple(r.path) + (("v", 1), ("f", 0)))})})))
+    return out
